@@ -3,7 +3,7 @@ CONSTANTS
   Threads = {"t1","t2"}
   Paths = {"p1","p2"}
   Keys = {"k1","k2","k3","k4"}
-  Dev = {}
+  Dev = {"PrecreateNotAtomic"}
   MaxCalls = 1
   MaxFaults = 1
   InitKr = {"","k1","k2"}
@@ -20,5 +20,6 @@ INVARIANT WrongKeyNeverOpens
 INVARIANT ExistingFileNeverGeneratesKey
 INVARIANT PermsOwnerOnly
 INVARIANT MatrixAgrees
+INVARIANT PermsNeverLoose
 PROPERTY FileMonotone
 CHECK_DEADLOCK TRUE
